@@ -64,9 +64,13 @@ def sortInv (inv : Inv) : Inv := inv.mergeSort (fun a b => decide (a.path ≤ b.
 def showErr : Option SelErr → String
   | none => "ok" | some .notFound => "notfound" | some .ambiguous => "ambiguous"
 
-def render (pv : List Event) (pverr : String) (pvpost : Inv) (fc : List Event) (fcerr : String) (post : Inv) : String :=
+def sortStrs (l : List String) : List String := l.mergeSort (fun a b => decide (a ≤ b))
+
+def render (pv : List Event) (pverr : String) (pvpost : Inv) (fc : List Event) (fcerr : String) (post : Inv)
+    (others : Others) : String :=
   s!"pv={showL "," showEvent pv} pverr={pverr} pvpost={showL ";" showShard (sortInv pvpost)} " ++
-  s!"fc={showL "," showEvent fc} fcerr={fcerr} post={showL ";" showShard (sortInv post)}"
+  s!"fc={showL "," showEvent fc} fcerr={fcerr} post={showL ";" showShard (sortInv post)} " ++
+  s!"pvoth={showL "," strHex (sortStrs (othersAfter false others))} fcoth={showL "," strHex (sortStrs (othersAfter true others))}"
 
 structure Impl where
   pv : List Event
@@ -75,20 +79,25 @@ structure Impl where
   fc : List Event
   fcerr : String
   post : Inv
+  pvoth : Others
+  fcoth : Others
 
 def kv? (key s : String) : Option String :=
   if s.startsWith (key ++ "=") then some (s.drop (key.length + 1)).toString else none
 
 def parseImpl (s : String) : Option Impl :=
   match fields s with
-  | [a, b, c, d, e, f] => do
+  | [a, b, c, d, e, f, g, h] => do
     pure ⟨← list? "," parseEvent (← kv? "pv" a), ← kv? "pverr" b, ← list? ";" parseShard (← kv? "pvpost" c),
-          ← list? "," parseEvent (← kv? "fc" d), ← kv? "fcerr" e, ← list? ";" parseShard (← kv? "post" f)⟩
+          ← list? "," parseEvent (← kv? "fc" d), ← kv? "fcerr" e, ← list? ";" parseShard (← kv? "post" f),
+          ← list? "," hexStr? (← kv? "pvoth" g), ← list? "," hexStr? (← kv? "fcoth" h)⟩
   | _ => none
 
 /-- verdict on the implementation's behaviour (the property's executable statement) -/
-def verdict (model : String) (inv : Inv) (desired : List Repo) (i : Impl) : String :=
+def verdict (model : String) (inv : Inv) (others : Others) (desired : List Repo) (i : Impl) : String :=
   if !(unchanged (sortInv inv) (sortInv i.pvpost)) then specFail model "preview-not-pure"
+  else if !(othersUnchanged others i.pvoth) then specFail model "preview-not-pure"
+  else if !(forceOthersOk others i.fcoth) then specFail model "force-touched-other-files"
   else if i.pverr != i.fcerr then specFail model "preview-error-differs"
   else if !(faithful i.pv i.fc) then
     -- class of the discrepancy: only repositories whose canonical shard is announced for removal ("moved", same name)
@@ -111,27 +120,27 @@ def apartAll : List Repo → Bool
 def handle (line : String) : String :=
   let (inp, impl) := splitCase line
   match fields inp with
-  | ["sync", cwd, ds, ss] =>
-    match hexStr? cwd, list? ";" parseRepo ds, list? ";" parseShard ss with
-    | some cwd, some desired, some inv =>
+  | ["sync", cwd, ds, ss, os] =>
+    match hexStr? cwd, list? ";" parseRepo ds, list? ";" parseShard ss, list? "," hexStr? os with
+    | some cwd, some desired, some inv, some others =>
       if !apartAll desired then badCase "shard paths of two repositories interfere" else
       let p := runSync false cwd desired inv
       let f := runSync true cwd desired inv
-      let model := render p.events (boolErr p.err) p.inv f.events (boolErr f.err) f.inv
+      let model := render p.events (boolErr p.err) p.inv f.events (boolErr f.err) f.inv others
       match parseImpl impl with
       | none => badCase "impl output"
-      | some i => verdict model inv desired i
-    | _, _, _ => badCase "fields"
-  | ["remove", cwd, sels, ss] =>
-    match hexStr? cwd, list? "," hexStr? sels, list? ";" parseShard ss with
-    | some cwd, some sels, some inv =>
+      | some i => verdict model inv others desired i
+    | _, _, _, _ => badCase "fields"
+  | ["remove", cwd, sels, ss, os] =>
+    match hexStr? cwd, list? "," hexStr? sels, list? ";" parseShard ss, list? "," hexStr? os with
+    | some cwd, some sels, some inv, some others =>
       let p := runRemove false cwd sels inv
       let f := runRemove true cwd sels inv
-      let model := render p.events (showErr p.err) p.inv f.events (showErr f.err) f.inv
+      let model := render p.events (showErr p.err) p.inv f.events (showErr f.err) f.inv others
       match parseImpl impl with
       | none => badCase "impl output"
-      | some i => verdict model inv [] i
-    | _, _, _ => badCase "fields"
+      | some i => verdict model inv others [] i
+    | _, _, _, _ => badCase "fields"
   | ["plan", cwd, ds, ss] =>
     match hexStr? cwd, list? ";" parseRepo ds, list? ";" parseShard ss with
     | some cwd, some desired, some inv =>
